@@ -197,9 +197,9 @@ class Case:
         obj = ufl.Coargument(self.m.spaces[i].dual(), 1)
         return self.add(Node("Coargument", (), [(i, False), (i, True)], obj, lambda ov, n=n: (np.eye(n, dtype=complex), 1.0)))
 
-    def leaf_argument(self, i):
+    def leaf_argument(self, i, number):
         n = self.m.dims[i]
-        obj = ufl.Argument(self.m.spaces[i], self.rng.choice([0, 1]))
+        obj = ufl.Argument(self.m.spaces[i], number)
         return self.add(Node("Argument", (), [(i, True), (i, False)], obj, lambda ov, n=n: (np.eye(n, dtype=complex), 1.0), vec=True))
 
     def leaf_zero(self, slots):
@@ -476,7 +476,7 @@ class Case:
 
         return "FormSum()", tuple(comps), slots, lambda: FormSum(*[(c.ufl, w) for c, (w, v) in zip(comps, ws)]), fn, {}
 
-    def right_operand_for(self, last):
+    def right_operand_for(self, last, number=0):
         """A node whose first slot is the dual of `last`."""
         rng = self.rng
         need = dual(last)
@@ -491,7 +491,7 @@ class Case:
                 if s is not None:
                     return s
             if r < 0.72:
-                return self.leaf_argument(need[0])
+                return self.leaf_argument(need[0], number)
             if r < 0.85:
                 cb = [n for n in c if not n.vec]
                 if cb:
@@ -522,7 +522,7 @@ class Case:
             b = self.fresh(((i, False),) + self.random_slots(rng.choice([0, 0, 1])))
             how = "Action"
         else:
-            b = self.right_operand_for(a.slots[-1])
+            b = self.right_operand_for(a.slots[-1], len(a.slots) - 1)
             how = rng.choice(["action", "action", "Action", "Action", "mul", "matmul", "call"] if b.vec else ["action", "Action", "Action", "call"])
         slots = tuple(a.slots[:-1]) + tuple(b.slots[1:])
 
@@ -676,13 +676,13 @@ class Case:
             obj = build()
         except Exception as ex:
             ctx.count("rejected")
-            ctx.covered("rejected_with", f"{op}: {type(ex).__name__}: {str(ex)[:70]}")
+            ctx.covered("rejected_with", f"{op}({','.join(tname(k.ufl) for k in kids)}): {type(ex).__name__}: {str(ex)[:70]}")
             return
         if slots == "ILL":
             ctx.count("illtyped_accepted_not_judged")
             return
         ctx.count("accepted")
-        syn = extra.get("syn") or set().union(*[k.syn for k in kids]) if kids else set()
+        syn = extra.get("syn") or set().union(*[k.syn for k in kids])
         deg = extra.get("deg") or _merge_max(*[k.deg for k in kids])
         conjd = extra.get("conjd") or set().union(*[k.conjd for k in kids])
         node = Node(op, kids, slots, obj, fn, syn=syn, deg=deg, conjd=conjd, info=extra.get("info"),
@@ -697,6 +697,7 @@ class Case:
                 self.add(node)
             return
         check(self, node)
+        recheck_operands(self, node)
         self.add(node)
 
 
@@ -723,8 +724,8 @@ def describe(node, depth=0):
 
 
 def detail(case, node, extra=None):
-    d = {"recipe": describe(node), "complex": case.cplx, "operand_types": [tname(k.ufl) for k in node.kids], "result_type": tname(node.ufl),
-         "result": str(node.ufl)[:700], "info": node.info}
+    d = {"recipe": describe(node), "signature": sig_ops(node), "complex": case.cplx, "operand_types": [tname(k.ufl) for k in node.kids], "result_type": tname(node.ufl),
+         "result": safe(node.ufl), "info": node.info}
     if extra:
         d.update(extra)
     return d
@@ -732,6 +733,42 @@ def detail(case, node, extra=None):
 
 def sig_ops(node):
     return f"{node.op}({','.join(tname(k.ufl) for k in node.kids)})->{tname(node.ufl)}"
+
+
+def mechanism(case, node, what, obj, args=None, missing=None):
+    """Short stable name of the cause where the monitor can tell; otherwise the operator/operand-type signature."""
+    from ufl.argument import BaseArgument
+
+    fam = FAMILY.get(node.op, node.op)
+    if what.startswith("arguments") and args is not None:
+        if any(not isinstance(a, BaseArgument) for a in args):
+            return "non-argument-listed-as-argument:" + "+".join(sorted({tname(a) for a in args if not isinstance(a, BaseArgument)}))
+        if fam == "derivative" and node.info and node.info[1] == "Cofunction" and type(node.kids[0].ufl) is Form:
+            return "Form-wrt-Cofunction"
+        if type(obj) is FormSum and node.slots is not None:
+            try:
+                lens = {len(c.arguments()) for c in obj.components()}
+            except Exception:
+                lens = set()
+            if lens == {len(node.slots)} and len(args) > len(node.slots):
+                return "components-number-the-same-slot-differently"
+    if what == "coefficient-missing" and node.op == "Action" and node.kids and node.kids[0].kind == "Coefficient" and missing in node.kids[0].syn:
+        return "left-Coefficient-operand"
+    if what == "value" and fam == "Adjoint" and case.cplx:
+        def nonreal(o):
+            if type(o) is FormSum:
+                for w in o.weights():
+                    try:
+                        if abs(case.m.scalar(w).imag) > 1e-12:
+                            return True
+                    except Skip:
+                        pass
+                return any(nonreal(c) for c in o.components())
+            return False
+
+        if nonreal(obj):
+            return "complex-weight-not-conjugated"
+    return sig_ops(node)
 
 
 def check(case, node):
@@ -774,10 +811,12 @@ def check(case, node):
             ctx.count("value_" + v[0] if not tag else "unexpanded_value_" + v[0])
             if v[0] == "disagree":
                 node.bad = True
-                ctx.violation(f"C28/{fam}/{tag}value/{sig_ops(node)}", f"array assembled from the result of {describe(node)} differs from the numpy denotation: {v[1]}",
+                ctx.violation(f"C28/{fam}/{tag}value/{mechanism(case, node, 'value', obj)}", f"array assembled from the result of {describe(node)} differs from the numpy denotation: {v[1]}",
                               detail(case, node, {"expected": arr_str(E_), "observed": arr_str(O_)}))
             elif v[0] == "agree" and not tag:
                 value_done = True
+        if status == "bad":
+            continue
         # ---- arguments
         check_arguments(case, node, obj, fam, tag, E_)
         # ---- coefficients
@@ -785,6 +824,9 @@ def check(case, node):
     if value_done and not node.bad:
         ctx.covered("operations_held", node.op)
         ctx.covered("families_held", fam)
+        ctx.count("held_" + fam)
+        if fam == "derivative":
+            ctx.covered("derivative_operands_held", tname(node.kids[0].ufl) + " wrt " + ",".join(map(str, node.info[1:])))
         simplified = tname(node.ufl) not in ("FormSum", "Action", "Adjoint")
         ctx.count("held_result_simplified" if simplified else "held_result_symbolic")
         if E_ is not None and np.any(E_):
@@ -794,8 +836,42 @@ def check(case, node):
             ctx.count("held_depth>=2")
         if node.depth >= 3:
             ctx.count("held_depth>=3")
-        ctx.sample({"recipe": describe(node), "complex": case.cplx, "result_type": tname(node.ufl), "result": str(node.ufl)[:300],
+        ctx.sample({"recipe": describe(node), "complex": case.cplx, "result_type": tname(node.ufl), "result": safe(node.ufl),
                     "array": arr_str(E_)}, limit=3)
+
+
+def recheck_operands(case, node):
+    """The operation must not have changed what its (symbolic) operands denote."""
+    ctx, m = case.ctx, case.m
+    fam = FAMILY.get(node.op, node.op)
+    for j, k in enumerate(node.kids):
+        if k.bad or not k.kids or tname(k.ufl) not in ("Action", "FormSum", "Adjoint"):
+            continue
+        try:
+            E_, Emag = k.ev(None)
+            O_, _, Omag = m.assemble(k.ufl)
+            v = compare(E_, Emag, O_, Omag)
+        except Skip:
+            continue
+        except Inconsistent as ex:
+            v = ("disagree", str(ex))
+        ctx.count("operand_rechecks")
+        if v[0] == "disagree":
+            k.bad = True
+            node.bad = True
+            same = "result-is-the-operand" if node.ufl is k.ufl else "other-object"
+            ctx.violation(f"C28/{fam}/operand-corrupted/{tname(k.ufl)}-operand-{same}",
+                          f"{describe(node)}: after the operation, operand {j} ({describe(k)}) no longer denotes its array: {v[1]}",
+                          detail(case, node, {"operand_now": safe(k.ufl)}))
+
+
+def safe(o):
+    try:
+        return str(o)[:400]
+    except RecursionError:
+        return "<str() recurses without end>"
+    except Exception as ex:
+        return f"<str() raises {type(ex).__name__}>"
 
 
 def arr_str(a):
@@ -825,13 +901,25 @@ def compare(E_, Emag, O_, Omag):
     return ("disagree", f"relative difference {err:.3g}")
 
 
+def has_degenerate_form(o, depth=0):
+    from ufl.constantvalue import Zero
+
+    if type(o) is Form:
+        return all(isinstance(itg.integrand(), Zero) for itg in o.integrals())
+    if depth < 12 and isinstance(o, ufl.form.BaseForm) and not isinstance(o, (ufl.Coargument, ufl.Cofunction, ufl.Matrix, ZeroBaseForm)):
+        return any(has_degenerate_form(x, depth + 1) for x in getattr(o, "ufl_operands", ()) if isinstance(x, ufl.form.BaseForm))
+    return False
+
+
 def check_arguments(case, node, obj, fam, tag, E_):
     ctx, m = case.ctx, case.m
     if node.slots is None:
         ctx.count("arguments_not_judged_zero_of_any_arity")
         return
-    if type(obj) is Form and (E_ is None or not np.any(np.abs(E_) > 1e-12)):
-        ctx.count("arguments_not_judged_zero_Form")
+    if has_degenerate_form(obj):
+        # class Form derives its arguments from its integrands: a Form whose integrands are all Zero (0*F, empty Form) has
+        # lost them, and whatever contains it reports accordingly; class Form is outside the statement
+        ctx.count("arguments_not_judged_vanishing_Form_inside")
         return
     try:
         args = obj.arguments()
@@ -844,14 +932,14 @@ def check_arguments(case, node, obj, fam, tag, E_):
     got = [a.ufl_function_space() for a in args]
     if len(got) != len(want):
         node.bad = True
-        ctx.violation(f"C28/{fam}/{tag}arguments-count/{sig_ops(node)}",
+        ctx.violation(f"C28/{fam}/{tag}arguments-count/{mechanism(case, node, 'arguments-count', obj, args)}",
                       f"{describe(node)}: arguments() has {len(got)} entries, argument contraction leaves {len(want)} slots",
                       detail(case, node, {"arguments": [str(a) + " on " + str(a.ufl_function_space()) for a in args], "expected_slots": [str(w) for w in want]}))
         return
     for j, (g, w) in enumerate(zip(got, want)):
         if g != w:
             node.bad = True
-            ctx.violation(f"C28/{fam}/{tag}arguments-space/{sig_ops(node)}",
+            ctx.violation(f"C28/{fam}/{tag}arguments-space/{mechanism(case, node, 'arguments-space', obj, args)}",
                           f"{describe(node)}: argument {j} is on {g}, argument contraction gives {w}",
                           detail(case, node, {"arguments": [str(a) + " on " + str(a.ufl_function_space()) for a in args], "expected_slots": [str(w) for w in want]}))
             return
@@ -898,7 +986,7 @@ def check_coefficients(case, node, obj, fam, tag, E_, Emag):
         if mx(A_ - E_) > 1e-6 * max(1.0, Emag, Amag):
             node.bad = True
             role = "left" if (node.kids and k in node.kids[0].syn) else "right"
-            ctx.violation(f"C28/{fam}/{tag}coefficient-missing/{sig_ops(node)}",
+            ctx.violation(f"C28/{fam}/{tag}coefficient-missing/{mechanism(case, node, 'coefficient-missing', obj, missing=k)}",
                           f"{describe(node)}: the array depends on {k} (operand side: {role}) but coefficients() does not list it",
                           detail(case, node, {"coefficients": sorted(map(str, got)), "depends_on": str(k)}))
             return
@@ -915,7 +1003,7 @@ def case(ctx, i, rng):
             ctx.count("world_unsupported")
             return
         raise
-    nsteps = rng.choice([6, 8, 10, 14])
+    nsteps = rng.choice([8, 12, 16, 22])
     for _ in range(nsteps):
         c.step()
     ctx.count("leaves_created", sum(1 for n in c.pool if not n.kids))
